@@ -19,15 +19,33 @@ def rname(r):
     return RNAME.get(r, str(r))
 
 
-def make_trace(vertices_resources, machine, constraints, placements, label=""):
+def make_trace(vertices_resources, machine, constraints, placements, label="", rebase=None):
+    """rebase: {resource: BASE} for the "huge" family - every quantity of that resource is BASE + something small
+    and the bottom [0, BASE) of every chip's range is reserved globally.  TLC's integers are 32-bit, so the trace
+    carries a mechanical, order-preserving projection of the positions of such a resource (exact integer
+    arithmetic here): [0, BASE) is shrunk to the stand-in [0, 64) and everything from BASE upwards is shifted down
+    by BASE - 64 (a multiple of every alignment used, so sizes, overlaps and alignment above BASE are unchanged).
+    A non-empty granted range that starts below BASE - it overlaps the bottom reservation - is represented by
+    [0, 1), which overlaps the stand-in; an empty range at 0 < p < BASE by the empty range at 8 + p % 8 (inside the
+    stand-in, same alignment up to 8)."""
     caps, gres, lres, aligns, reqs = [], [], [], [], []
+    rebase = rebase or {}
     vidx = {v: i for i, v in enumerate(vertices_resources)}
     for c in constraints:
         if isinstance(c, ReserveResourceConstraint):
+            b = rebase.get(c.resource, 0)
+            if b:
+                b -= 64
+                if (c.reservation.start, c.reservation.stop) == (0, b + 64):
+                    (gres if c.location is None else lres).append(
+                        ([] if c.location is None else list(c.location)) + [rname(c.resource), 0, 64])
+                    continue
+                assert c.reservation.start >= b + 64
             if c.location is None:
-                gres.append([rname(c.resource), c.reservation.start, c.reservation.stop])
+                gres.append([rname(c.resource), c.reservation.start - b, c.reservation.stop - b])
             else:
-                lres.append([c.location[0], c.location[1], rname(c.resource), c.reservation.start, c.reservation.stop])
+                lres.append([c.location[0], c.location[1], rname(c.resource), c.reservation.start - b,
+                             c.reservation.stop - b])
         elif isinstance(c, AlignResourceConstraint):
             aligns.append([rname(c.resource), c.alignment])
     # alignments: the last constraint for a resource wins in rig; keep only that one (mechanical)
@@ -37,7 +55,7 @@ def make_trace(vertices_resources, machine, constraints, placements, label=""):
     aligns = list(last.values())
     for xy in sorted(set(placements.values())):
         for r, cap in machine[xy].items():
-            caps.append([xy[0], xy[1], rname(r), cap])
+            caps.append([xy[0], xy[1], rname(r), cap - (rebase[r] - 64 if r in rebase else 0)])
     for v, res in vertices_resources.items():
         xy = placements[v]
         for r, size in res.items():
@@ -52,7 +70,18 @@ def make_trace(vertices_resources, machine, constraints, placements, label=""):
             xy = placements[v]
             for r, sl in res.items():
                 step_ok = sl.step is None
-                evs.append(["grant", vidx[v], xy[0], xy[1], rname(r), sl.start if step_ok else -1, sl.stop])
+                lo, hi = sl.start, sl.stop
+                if r in rebase and step_ok:
+                    b = rebase[r]
+                    if lo >= b:
+                        lo, hi = lo - (b - 64), hi - (b - 64)
+                    elif lo < hi:
+                        lo, hi = 0, 1
+                    elif lo > 0:
+                        lo = hi = 8 + lo % 8
+                if not (-2 ** 30 < lo < 2 ** 30 and -2 ** 30 < hi < 2 ** 30):
+                    lo, hi = -2, -1          # far outside the chip's range: the size and in-range clauses reject it
+                evs.append(["grant", vidx[v], xy[0], xy[1], rname(r), lo if step_ok else -1, hi])
         evs.append(["ok"])
     return dict(caps=caps, gres=gres, lres=lres, aligns=aligns, reqs=reqs, ev=evs, label=label)
 
@@ -143,10 +172,71 @@ def random_problem(rng):
     return vr, m, cons, pl
 
 
+def huge_problem(rng):
+    """Quantities at the far end of "all machines": a resource counted in units beyond 2^31 / 2^53 / 2^60 (byte
+    addresses of a 64-bit space), its bottom [0, BASE) reserved globally, reservations and requests in the small
+    window above BASE (odd sizes, so that positions are not representable as doubles beyond 2^53)."""
+    base = rng.choice((2 ** 31, 2 ** 32 + 64, 2 ** 53, 2 ** 53 + 2 ** 12, 2 ** 60, 2 ** 62 + 2 ** 20, 3 * 2 ** 61))
+    w, h = rng.randint(1, 2), rng.randint(1, 2)
+    win = rng.randint(8, 60)
+    resources = {Cores: rng.randint(1, 18), SDRAM: base + win}
+    exc = {}
+    if rng.random() < 0.4:
+        exc[(rng.randrange(w), rng.randrange(h))] = {Cores: rng.randint(1, 18), SDRAM: base + rng.randint(4, win + 9)}
+    m = Machine(w, h, chip_resources=dict(resources), chip_resource_exceptions=exc)
+    cons = [ReserveResourceConstraint(SDRAM, slice(0, base))]
+    easy = rng.random() < 0.5
+    for _ in range(rng.randint(0, 3)):
+        loc = (rng.randrange(w), rng.randrange(h)) if rng.random() < 0.5 else None
+        cap = (min(m[xy][SDRAM] for xy in m) if loc is None else m[loc][SDRAM]) - base
+        if easy:
+            # (with the bottom reserved, "only at the ends" leaves the top end)
+            if loc is None and any(m[xy][SDRAM] - base != cap for xy in m):
+                continue
+            n = rng.randint(1, max(1, cap // 3))
+            sl = slice(base + cap - n, base + cap)
+        else:
+            a = rng.randint(0, cap - 1)
+            sl = slice(base + a, base + rng.randint(a + 1, cap))
+        cons.append(ReserveResourceConstraint(SDRAM, sl, loc))
+    if not easy and rng.random() < 0.4:
+        cons.append(AlignResourceConstraint(SDRAM, rng.choice((1, 2, 4, 8))))
+    rng.shuffle(cons)
+    vr, pl = {}, {}
+    n = 0
+    for xy in m:
+        budget = m[xy][SDRAM] - base - sum(c.reservation.stop - c.reservation.start for c in cons
+                                           if isinstance(c, ReserveResourceConstraint) and c.location in (None, xy)
+                                           and c.reservation.start >= base)
+        for _ in range(rng.randint(1, 5)):
+            q = rng.randint(0, max(0, budget // 2 + (1 if rng.random() < 0.1 else 0)))
+            budget -= q
+            if budget < 0 and rng.random() < 0.7:
+                break
+            vr["v%d" % n] = {SDRAM: q, Cores: rng.randint(0, 1)} if rng.random() < 0.5 else {SDRAM: q}
+            pl["v%d" % n] = xy
+            n += 1
+    items = list(vr.items())
+    rng.shuffle(items)
+    return dict(items), m, cons, pl, {SDRAM: base}
+
+
 def run(chk):
     rng = random.Random(chk.seed)
     chk.design("AllocateDesign", "AllocateDesign_%s.cfg" % chk.tier,
                expect_actions=("Fail", "Skip", "Grant", "Done"))
+    # Apalache (symbolic): IndInv is an inductive invariant of the scan for UNBOUNDED capacity, request sizes,
+    # reservation positions and alignment (only the number of reservations / requests is bounded, by 3); the scan's
+    # start states satisfy it; and the same invariant is refuted for a scan that grants without re-checking.  Run
+    # beside the trace generation (one core each).
+    from concurrent.futures import ThreadPoolExecutor
+    pool = ThreadPoolExecutor(3)
+    apa = [pool.submit(chk.apalache, "AllocateInd", "IndInit", "DNext", "IndInv", 1, cinit="ConstInit",
+                       label="inductive step: IndInv /\\ DNext => IndInv' (unbounded Cap, sizes, alignment)"),
+           pool.submit(chk.apalache, "AllocateInd", "StartInit", "DNext", "IndInv", 0, cinit="ConstInit",
+                       label="base case: every start state of the scan satisfies IndInv"),
+           pool.submit(chk.apalache, "AllocateInd", "IndInit", "WrongNext", "IndInv", 1, cinit="ConstInit",
+                       expect="Error", label="refuted: a scan that grants without re-checking breaks IndInv")]
     traces = []
     for vr, m, cons, pl in small_layouts(chk, rng):
         t = make_trace(vr, m, cons, pl, "small")
@@ -158,13 +248,20 @@ def run(chk):
         t = make_trace(vr, m, cons, pl, "random")
         traces.append(t)
         chk.note_case((t["caps"], t["gres"], t["lres"], t["aligns"], t["reqs"]), nontrivial=bool(t["reqs"]))
+    hrng = random.Random(chk.seed + 5)
+    for i in range(chk.pick(600, 12000)):
+        vr, m, cons, pl, rb = huge_problem(hrng)
+        t = make_trace(vr, m, cons, pl, "huge (positions from %d upwards shifted to 64)" % rb[SDRAM], rebase=rb)
+        traces.append(t)
+        chk.note_case((rb[SDRAM], t["caps"], t["gres"], t["lres"], t["aligns"], t["reqs"]), nontrivial=bool(t["reqs"]))
     nraise = sum(1 for t in traces if t["ev"][-1][0] == "raise")
     chk.count("calls that raised", nraise)
     chk.count("calls that returned", len(traces) - nraise)
     chk.rule = ("single-chip layouts (see small_layouts_domain) through the real allocate(), then random multi-chip "
                 "machines with per-chip exceptions, 0-3 global/per-chip reservations per resource (half of the problems "
                 "with end-only reservations and no alignment so that the completeness clause applies), alignments, "
-                "shuffled vertex orders, zero-size requests; non-trivial = at least one request (and, for the small "
+                "shuffled vertex orders, zero-size requests; then resources counted beyond 2^31 / 2^53 / 2^60 units with the "
+                "bottom [0, BASE) reserved (positions travel shifted, see make_trace); non-trivial = at least one request (and, for the small "
                 "layouts, at least one reservation); distinct = distinct (capacities, reservations, alignments, requests)")
     chk.exhaustive = False
     chk.sample(traces[len(traces) // 7]); chk.sample(traces[-1]); chk.sample(traces[-2])
@@ -174,6 +271,12 @@ def run(chk):
                                                            tr["lres"], tr["aligns"], tr["reqs"])
 
     chk.validate("AllocateTrace", "AllocateTrace.cfg", traces, key_of=key_of, batch=6000)
+    for f in apa:
+        f.result()                      # an unexpected outcome is a machinery error (raised here)
+    chk.extra["apalache_inductive_invariant"] = (
+        "AllocateInd.IndInv (TypeOK, one grant per finished request, Sound, every grant below the bump pointer) is "
+        "inductive for AllocateScan.DNext with Cap \\in Nat and unbounded sizes / positions / alignment, <= 3 "
+        "reservations and requests; IndInv => Sound")
 
 
 def selftest(chk):
